@@ -109,7 +109,15 @@ func c11Scenario(s *sc) {
 		}
 		s.logf("periodic snapshots taken; now editing")
 		// edit in place (same matchers): longer, new comment
-		id, _, err := in.PostSilence(SilenceIn{ID: sAct, Matchers: []Matcher{eq("x", "1")}, StartsAt: now, EndsAt: now.Add(3 * time.Hour), CreatedBy: "appsys", Comment: "active, extended after the periodic snapshot"})
+		startAct := now // re-submit the start the server reports (an edit with another start replaces the silence)
+		if sils, err := in.GetSilences(); err == nil {
+			for _, x := range sils {
+				if x.ID == sAct {
+					startAct = x.StartsAt
+				}
+			}
+		}
+		id, _, err := in.PostSilence(SilenceIn{ID: sAct, Matchers: []Matcher{eq("x", "1")}, StartsAt: startAct, EndsAt: now.Add(3 * time.Hour), CreatedBy: "appsys", Comment: "active, extended after the periodic snapshot"})
 		s.must(err, "edit silence")
 		if id != sAct {
 			s.logf("edit replaced the silence: %s -> %s", sAct, id)
